@@ -151,6 +151,11 @@ func (g *G) literal() cfg.Val {
 		return cfg.Int(math.MinInt64)
 	case 10:
 		return cfg.Float(-2.5, "-2.5")
+	case 11:
+		// other spellings YAML accepts for numbers
+		return choose(g, cfg.Val{Kind: "int", I: 31, Text: "0x1F"}, cfg.Val{Kind: "int", I: 15, Text: "0o17"}, cfg.Val{Kind: "int", I: 1000, Text: "1_000"},
+			cfg.Val{Kind: "int", I: 5, Text: "+5"}, cfg.Val{Kind: "int", I: -31, Text: "-0x1F"}, cfg.Val{Kind: "uint", U: math.MaxUint64, Text: "0xFFFFFFFFFFFFFFFF"},
+			cfg.Float(1000, "1e3"), cfg.Float(0.5, ".5"), cfg.Float(-0.0, "-0.0"), cfg.Val{Kind: "bool", B: true, Text: "True"}, cfg.Val{Kind: "null", Text: "Null"})
 	}
 	return cfg.Int(int64(g.pick(10)))
 }
@@ -267,10 +272,12 @@ func (g *G) fnArgsFor(fn string) string {
 		}
 		return fmt.Sprintf(`"VERIF_ENVI_%d"`, g.pick(3))
 	case "todo":
-		if g.chance(0.5) {
+		if g.chance(0.4) {
 			return ""
 		}
-		return choose(g, `"later"`, `"in development"`)
+		return choose(g, `"later"`, `"in development"`, `""`, `"parameter"`)
+	case "FnTyped":
+		return choose(g, `2, 10, "s"`, `1.5, 3, "x y"`, `0, -4, ""`, `7, 0, "é"`)
 	}
 	return g.fnArgs()
 }
@@ -345,7 +352,7 @@ func Behaviour(r *rand.Rand, o Opts) *cfg.Config {
 	g.aliases = cand[:g.pick(len(cand)+1)]
 	c.Meta.Imports = append(c.Meta.Imports, g.aliases...)
 	// functions
-	fnCand := []struct{ name, sym string }{{"fn", "Fn"}, {"echo", "FnEcho"}, {"fnint", "FnInt"}, {"boom", "FnFail"}, {"f2", "Fn"}, {"Echo_2", "FnEcho"}}
+	fnCand := []struct{ name, sym string }{{"fn", "Fn"}, {"echo", "FnEcho"}, {"fnint", "FnInt"}, {"boom", "FnFail"}, {"f2", "Fn"}, {"Echo_2", "FnEcho"}, {"typed", "FnTyped"}}
 	for _, fc := range fnCand {
 		if g.chance(0.6) {
 			c.Meta.Functions = append(c.Meta.Functions, cfg.KS{K: fc.name, V: g.Ref(g.anyPkg(), fc.sym)})
@@ -408,6 +415,10 @@ func Behaviour(r *rand.Rand, o Opts) *cfg.Config {
 			}
 			c.Decorators = append(c.Decorators, d)
 		}
+	}
+	// the same decorator may be declared more than once (also in different files): it is applied once per declaration
+	if len(c.Decorators) > 0 && g.chance(0.3) {
+		c.Decorators = append(c.Decorators, c.Decorators[g.pick(len(c.Decorators))])
 	}
 	// shuffle declaration order of maps (the tool sorts by name; order in YAML must not matter)
 	r.Shuffle(len(c.Services), func(i, j int) { c.Services[i], c.Services[j] = c.Services[j], c.Services[i] })
@@ -636,7 +647,15 @@ func (g *G) addGetters() {
 	used := map[string]bool{}
 	for i := range c.Services {
 		s := &c.Services[i]
-		if s.IsTodo() || !g.chance(0.45) {
+		if s.IsTodo() {
+			continue
+		}
+		if !g.chance(0.45) {
+			// a `type` without a getter is legal: the type is then used by nothing in the generated code
+			// (its package may be imported for nothing and has to be pruned)
+			if s.Type == nil && s.Constructor != nil && g.chance(0.25) {
+				s.Type = cfg.P(choose(g, "*", "") + g.Ref(g.anyPkg(), choose(g, "Obj", "Iface", "Val")))
+			}
 			continue
 		}
 		it := ref.NewInterp(c, fixt)
